@@ -2,17 +2,16 @@ import Driver.Proto
 import XsdataModel.Py.TblEnv
 import XsdataModel.Conv.Factory
 import XsdataModel.Conv.TblCEnv
+import XsdataModel.Conv.FloatRepr
+import XsdataModel.Conv.Strptime
 open Lean Proto Py Xs.Conv Xs.Dates
 
 namespace OpsConv
 
-/-- environment for one request: Unicode tables + the `repr(float(s))` answers
-the harness computed for the strings of this request -/
-def mkEnv (freprs : Json) : CEnv :=
-  tblCEnv fun s =>
-    match freprs.getObjVal? (String.ofList s) with
-    | .ok (.str r) => r.toList
-    | _ => "?missing-float-repr".toList
+/-- environment for every request: Unicode tables of the running interpreter and
+the exact `repr(float(s))` computed in Lean (`Conv/FloatRepr.lean`); the harness
+no longer supplies float reprs -/
+def mkEnv (_freprs : Json) : CEnv := tblCEnv (pyFloatReprD tblEnv)
 
 def optInts (j : Json) : Except String (List (Option Int)) := do
   let a ← asArr j
@@ -65,6 +64,20 @@ def parseAtom (j : Json) : Except String Atom := do
     | [y, m, d, h, mi, s, f, o] =>
       return .dateTime ⟨← reqI y, ← reqI m, ← reqI d, ← reqI h, ← reqI mi, ← reqI s, ← reqI f, o⟩
     | _ => throw "datetime arity"
+  | "duration" => return .duration (← asStr v)
+  | "period" => return .period (← asStr v)
+  | "pydate" =>
+    match ← optInts v with
+    | [some y, some m, some d] => return .pyDate y m d
+    | _ => throw "pydate arity"
+  | "pytime" =>
+    match ← optInts v with
+    | [some h, some mi, some s, some us] => return .pyTime h mi s us
+    | _ => throw "pytime arity"
+  | "pydatetime" =>
+    match ← optInts v with
+    | [some y, some m, some d, some h, some mi, some s, some us] => return .pyDateTime ⟨y, m, d, h, mi, s, us⟩
+    | _ => throw "pydatetime arity"
   | k => throw s!"bad atom type {k}"
 
 def parseEnumVal (j : Json) : Except String EnumVal := do
@@ -82,6 +95,9 @@ def parseTy (j : Json) : Except String Ty :=
     | "Decimal" => pure .decimal | "str" => pure .str | "QName" => pure .qname
     | "bytes" => pure .bytes | "XmlDate" => pure .xmlDate | "XmlTime" => pure .xmlTime
     | "XmlDateTime" => pure .xmlDateTime | "unregistered" => pure .unregistered
+    | "XmlDuration" => pure .xmlDuration | "XmlPeriod" => pure .xmlPeriod
+    | "XmlHexBinary" => pure .xmlHexBinary | "XmlBase64Binary" => pure .xmlBase64Binary
+    | "date" => pure .pyDate | "time" => pure .pyTime | "datetime" => pure .pyDateTime
     | k => throw s!"bad type {k}"
   | _ => do
     let a ← getArr j "enum"
@@ -129,6 +145,12 @@ def jAtom : Atom → Json
   | .dateTime v => jObj [("t", "datetime"),
       ("v", jList (jOpt jInt) [some v.year, some v.month, some v.day, some v.hour,
         some v.minute, some v.second, some v.frac, v.offset])]
+  | .duration d => jObj [("t", "duration"), ("v", jStr d)]
+  | .period d => jObj [("t", "period"), ("v", jStr d)]
+  | .pyDate y m d => jObj [("t", "pydate"), ("v", jList jInt [y, m, d])]
+  | .pyTime h mi sec us => jObj [("t", "pytime"), ("v", jList jInt [h, mi, sec, us])]
+  | .pyDateTime v => jObj [("t", "pydatetime"),
+      ("v", jList jInt [v.year, v.month, v.day, v.hour, v.minute, v.second, v.micro])]
 
 def jVal : Val → Json
   | .atom a => jAtom a
@@ -142,6 +164,11 @@ def jSer : Except SerErr (Str × Option NsMap) → Json
   | .ok (s, m) => ok (jObj [("s", jStr s), ("ns_map", jNsMap m)])
   | .error .converterError => err "ConverterError"
   | .error .indexError => err "LEAK:IndexError"
+  | .error .unsupported => jObj [("fail", "format outside the strftime model")]
+
+/-- a `date`/`time`/`datetime` candidate with a format outside the strptime model cannot be evaluated -/
+def needsUnsupportedFmt (tys : List Ty) (kw : Kw) : Bool :=
+  tys.any (fun t => t = .pyDate || t = .pyTime || t = .pyDateTime) && !fmtSupported tblEnv kw.format
 
 def jFloatLit : FloatLit → Json
   | .fin n c x => jObj [("k", "fin"), ("neg", jBool n), ("coeff", jNat c), ("exp", jInt x)]
@@ -160,6 +187,7 @@ def run (op : String) (a : Json) : Option (Except String Json) :=
       let tys0 ← (← getArr a "types").mapM parseTy
       let tys := if (getField a "sort") == Json.bool true then sortTys tys0 else tys0
       let kw ← parseKw (getField a "kw")
+      if needsUnsupportedFmt tys kw then throw "format outside the strptime model"
       pure <| match deserialize e s tys kw with
         | some v => ok (jVal v)
         | none => err "ConverterError"
@@ -169,6 +197,7 @@ def run (op : String) (a : Json) : Option (Except String Json) :=
       let tys ← (← getArr a "types").mapM parseTy
       let kw ← parseKw (getField a "kw")
       let strict ← getBool a "strict"
+      if needsUnsupportedFmt tys kw then throw "format outside the strptime model"
       pure <| ok (jBool (test e s tys strict kw))
   | "conv.ser" => some do
       let kw ← parseKw (getField a "kw")
@@ -197,6 +226,26 @@ def run (op : String) (a : Json) : Option (Except String Json) :=
   | "conv.from_value" => some do
       let atm ← parseAtom (getField a "v")
       pure <| ok (jStr (fromValue tblEnv atm))
+  | "conv.strptime" => some do
+      let s ← getStr a "s"; let f ← getStr a "fmt"
+      match strptime tblEnv s f with
+      | .ok v => pure <| ok (jList jInt [v.year, v.month, v.day, v.hour, v.minute, v.second, v.micro])
+      | .err => pure <| err "ValueError"
+      | .unsupported => .error "format outside the strptime model"
+  | "conv.strftime" => some do
+      let f ← getStr a "fmt"
+      match ← optInts (getField a "v") with
+      | [some y, some mo, some d, some h, some mi, some sec, some us] =>
+        match strftime ⟨y, mo, d, h, mi, sec, us⟩ f with
+        | .ok r => pure <| ok (jStr r)
+        | .err => pure <| err "ValueError"
+        | .unsupported => .error "format outside the strftime model"
+      | _ => .error "datetime arity"
+  | "conv.float_repr" => some do
+      let s ← getStr a "s"
+      pure <| match pyFloatRepr tblEnv s with
+        | some r => ok (jStr r)
+        | none => err "ValueError"
   | "conv.float_lit" => some do
       let s ← getStr a "s"
       pure <| match pyFloatLit tblEnv s with
